@@ -36,6 +36,11 @@ def main():
             print('%-50s UNSUPPORTED: %s' % (n, e)); 
             if verbose: traceback.print_exc()
             continue
+        except Exception as e:
+            print('%-50s ENGINE ERROR: %s: %s' % (n, type(e).__name__, e))
+            tb = traceback.format_exc().strip().split('\n')
+            print('      ' + '\n      '.join(tb[-6:]))
+            continue
         gen = time.time() - t1
         v.solve_all(opts.get('timeout', 10000))
         # aggregate per name
@@ -59,6 +64,7 @@ def main():
                 print('   FAIL %-60s %s  [%s] %s' % (nm, [o.result for o in os_ if o.result != 'unsat'][:3], os_[0].where, os_[0].text[:200]))
                 if show:
                     for o in os_:
+                        if o.result == 'sat' and o.model: print('        model: %s' % o.model)
                         if o.result != 'unsat': print('        path(%s): %s' % (o.result, ' '.join('%s' % (b if f == n else '%s:%s' % (f, b)) for f, b in o.trace)))
             elif verbose or sum(o.time for o in os_) > 1:
                 print('   ok   %-60s %d paths %.2fs' % (nm, len(os_), sum(o.time for o in os_)))
